@@ -10,6 +10,7 @@ import (
 	"go/ast"
 	"go/parser"
 	"go/token"
+	"go2coq/g2c"
 	"path/filepath"
 	"strings"
 )
@@ -354,6 +355,8 @@ func intCase(fd *ast.FuncDecl) []ast.Stmt {
 	}
 	return nil
 }
+
+func main() { g2c.Register("GenArith", genArith); g2c.Main() }
 
 func genArith(repo string) (string, []string) {
 	t := &tr{fset: token.NewFileSet(), kind: map[string]string{}}
